@@ -531,6 +531,16 @@ func (m *monC09) AfterTx(w *World, tx *TxCtx) {
 			}
 		}
 	}
+	// the chain telling the registered owner that it is not the owner (or that its registration does
+	// not exist) contradicts "stores the signer as owner; only that owner can record / purchase"
+	if exps := expectationsOf(tx); len(exps) == 1 && !exps[0].MustFail && tx.AntePassed && tx.Resp.Code != 0 {
+		if lv, _ := tx.Stash["leaves"].([]Leaf); len(lv) == 1 {
+			k := msgKind(lv[0].Msg)
+			if (strings.HasSuffix(k, ".record") || strings.HasSuffix(k, ".purchase")) && (tx.Resp.Codespace == "wrkchain" || tx.Resp.Codespace == "beacon") && (tx.Resp.Code == 204 || tx.Resp.Code == 201) {
+				w.Violate("C09", fmt.Sprintf("C09/owner-rejected/%s/code-%d", k, tx.Resp.Code), "tx %d/%d (%s) by the registered owner of an existing registration was rejected: %s", tx.Block, tx.Idx, k, trunc(tx.Resp.Log, 120))
+			}
+		}
+	}
 	if hit && tx.Resp.Code != 0 && regStoreDigests(w, ctx) != m.pre {
 		w.Violate("C09", "C09/rejected-attempt-changed-state", "tx %d/%d (%s) was rejected but WRKChain/BEACON state changed", tx.Block, tx.Idx, kindsOf(tx))
 	}
